@@ -81,7 +81,8 @@ pub proof fn lemma_lex_trichotomy(a: Seq<u8>, b: Seq<u8>)
 
 CONNECTION_STANDIN = '''
 // ---------- trusted stand-in: crate::connection::Connection (a clonable handle on one quinn connection) ----------
-pub struct Connection { pub sid: usize, pub peer: PeerId, pub orig: ConnectionOrigin }
+pub struct SocketAddr { pub a: u64 }
+pub struct Connection { pub sid: usize, pub peer: PeerId, pub orig: ConnectionOrigin, pub established: Instant, pub addr: u64 }
 impl Clone for Connection {
     #[verifier::external_body]
     fn clone(&self) -> (r: Self) ensures r == *self { unimplemented!() }
@@ -90,6 +91,9 @@ impl Connection {
     #[verifier::external_body] pub fn peer_id(&self) -> (r: PeerId) ensures r == self.peer { unimplemented!() }
     #[verifier::external_body] pub fn origin(&self) -> (r: ConnectionOrigin) ensures r == self.orig { unimplemented!() }
     #[verifier::external_body] pub fn stable_id(&self) -> (r: usize) ensures r == self.sid { unimplemented!() }
+    #[verifier::external_body] pub fn time_established(&self) -> (r: Instant) ensures r == self.established { unimplemented!() }
+    #[verifier::external_body] pub fn remote_address(&self) -> (r: SocketAddr) ensures r.a == self.addr { unimplemented!() }
+    #[verifier::external_body] pub fn rtt(&self) -> (r: Duration) { unimplemented!() }
     #[verifier::external_body] pub fn close(&self) { unimplemented!() }
 }
 '''
@@ -124,10 +128,77 @@ pub assume_specification<T, E, F>[core::result::Result::<T, E>::or::<F>](r: core
     ensures out == (match r { Ok(v) => Ok::<T, F>(v), Err(_) => res });
 pub assume_specification<T, E, U>[core::result::Result::<T, E>::and::<U>](r: core::result::Result<T, E>, res: core::result::Result<U, E>) -> (out: core::result::Result<U, E>)
     ensures out == (match r { Ok(_) => res, Err(e) => Err::<U, E>(e) });
+pub assume_specification<T, F: FnOnce(T) -> bool>[core::option::Option::<T>::is_some_and](o: Option<T>, f: F) -> (out: bool)
+    requires o is Some ==> f.requires((o->Some_0,)),
+    ensures o is None ==> !out, o is Some ==> f.ensures((o->Some_0,), out);
 pub assume_specification<T>[core::option::Option::<T>::or](o: Option<T>, optb: Option<T>) -> (out: Option<T>)
     ensures out == (match o { Some(v) => Some(v), None => optb });
 pub assume_specification<T>[core::option::Option::<T>::xor](o: Option<T>, optb: Option<T>) -> (out: Option<T>)
     ensures out == (match (o, optb) { (Some(a), None) => Some(a), (None, Some(b)) => Some(b), _ => None });
 pub assume_specification<T, U>[core::option::Option::<T>::and::<U>](o: Option<T>, optb: Option<U>) -> (out: Option<U>)
     ensures out == (match o { Some(_) => optb, None => None::<U> });
+'''
+
+# std::time::{Duration, Instant} as nanosecond naturals (machine representation: u64 secs + u32 nanos => Duration <= dmax)
+TIME_STANDIN = '''
+// ---------- trusted stand-in: std::time::{Duration, Instant} as mathematical nanosecond counts ----------
+pub open spec fn dmax() -> nat { (18446744073709551615 * 1000000000 + 999999999) as nat }
+pub open spec fn natmin(a: nat, b: nat) -> nat { if a <= b { a } else { b } }
+#[derive(Clone, Copy)]
+pub struct Duration { pub ns: Ghost<nat> }
+#[derive(Clone, Copy)]
+pub struct Instant { pub t: Ghost<nat> }
+impl PartialEq for Duration { #[verifier::external_body] fn eq(&self, o: &Self) -> (r: bool) ensures r == (self.ns@ == o.ns@) { unimplemented!() } }
+impl PartialOrd for Duration {
+    #[verifier::external_body] fn partial_cmp(&self, o: &Self) -> (r: Option<Ordering>) { unimplemented!() }
+    #[verifier::external_body] fn lt(&self, o: &Self) -> (r: bool) ensures r == (self.ns@ < o.ns@) { unimplemented!() }
+    #[verifier::external_body] fn le(&self, o: &Self) -> (r: bool) ensures r == (self.ns@ <= o.ns@) { unimplemented!() }
+    #[verifier::external_body] fn gt(&self, o: &Self) -> (r: bool) ensures r == (self.ns@ > o.ns@) { unimplemented!() }
+    #[verifier::external_body] fn ge(&self, o: &Self) -> (r: bool) ensures r == (self.ns@ >= o.ns@) { unimplemented!() }
+}
+impl PartialEq for Instant { #[verifier::external_body] fn eq(&self, o: &Self) -> (r: bool) ensures r == (self.t@ == o.t@) { unimplemented!() } }
+impl PartialOrd for Instant {
+    #[verifier::external_body] fn partial_cmp(&self, o: &Self) -> (r: Option<Ordering>) { unimplemented!() }
+    #[verifier::external_body] fn lt(&self, o: &Self) -> (r: bool) ensures r == (self.t@ < o.t@) { unimplemented!() }
+    #[verifier::external_body] fn le(&self, o: &Self) -> (r: bool) ensures r == (self.t@ <= o.t@) { unimplemented!() }
+    #[verifier::external_body] fn gt(&self, o: &Self) -> (r: bool) ensures r == (self.t@ > o.t@) { unimplemented!() }
+    #[verifier::external_body] fn ge(&self, o: &Self) -> (r: bool) ensures r == (self.t@ >= o.t@) { unimplemented!() }
+}
+impl Duration {
+    // (const fn with a never-executed zero-sized body so that extracted `const X: Duration = Duration::from_secs(..)` items still compile)
+    #[verifier::external_body] pub const fn from_nanos(n: u64) -> (r: Duration) ensures r.ns@ == n as nat { unsafe { core::mem::zeroed() } }
+    #[verifier::external_body] pub const fn from_micros(n: u64) -> (r: Duration) ensures r.ns@ == n as nat * 1000 { unsafe { core::mem::zeroed() } }
+    #[verifier::external_body] pub const fn from_millis(n: u64) -> (r: Duration) ensures r.ns@ == n as nat * 1000000 { unsafe { core::mem::zeroed() } }
+    #[verifier::external_body] pub const fn from_secs(n: u64) -> (r: Duration) ensures r.ns@ == n as nat * 1000000000 { unsafe { core::mem::zeroed() } }
+    #[verifier::external_body] pub fn as_nanos(&self) -> (r: u128) requires self.ns@ <= dmax() ensures r as nat == self.ns@ { unimplemented!() }
+    #[verifier::external_body] pub fn as_millis(&self) -> (r: u128) requires self.ns@ <= dmax() ensures r as nat == self.ns@ / 1000000 { unimplemented!() }
+    #[verifier::external_body] pub fn saturating_mul(self, rhs: u32) -> (r: Duration) ensures r.ns@ == natmin(self.ns@ * rhs as nat, dmax()) { unimplemented!() }
+    #[verifier::external_body] pub fn saturating_add(self, rhs: Duration) -> (r: Duration) ensures r.ns@ == natmin(self.ns@ + rhs.ns@, dmax()) { unimplemented!() }
+    #[verifier::external_body] pub fn saturating_sub(self, rhs: Duration) -> (r: Duration) ensures r.ns@ == (if self.ns@ >= rhs.ns@ { (self.ns@ - rhs.ns@) as nat } else { 0 }) { unimplemented!() }
+}
+impl Instant {
+    #[verifier::external_body] pub fn now() -> (r: Instant) { unimplemented!() }
+    #[verifier::external_body] pub fn elapsed(&self) -> (r: Duration) { unimplemented!() }
+}
+pub mod cmp {
+    use super::*;
+    pub trait MinMax: Sized { spec fn key(&self) -> nat; }
+    impl MinMax for Duration { open spec fn key(&self) -> nat { self.ns@ } }
+    impl MinMax for Instant { open spec fn key(&self) -> nat { self.t@ } }
+    impl MinMax for usize { open spec fn key(&self) -> nat { *self as nat } }
+    impl MinMax for u64 { open spec fn key(&self) -> nat { *self as nat } }
+    #[verifier::external_body]
+    pub fn min<T: MinMax>(a: T, b: T) -> (r: T) ensures r == (if a.key() <= b.key() { a } else { b }) { unimplemented!() }
+    #[verifier::external_body]
+    pub fn max<T: MinMax>(a: T, b: T) -> (r: T) ensures r == (if b.key() >= a.key() { b } else { a }) { unimplemented!() }
+}
+impl vstd::std_specs::ops::AddSpecImpl<Duration> for Instant {
+    open spec fn obeys_add_spec() -> bool { true }
+    open spec fn add_req(self, rhs: Duration) -> bool { true }     // ASSUMED: Instant + Duration does not overflow the platform clock
+    open spec fn add_spec(self, rhs: Duration) -> Instant { Instant { t: Ghost((self.t@ + rhs.ns@) as nat) } }
+}
+impl core::ops::Add<Duration> for Instant {
+    type Output = Instant;
+    #[verifier::external_body] fn add(self, rhs: Duration) -> (r: Instant) { unimplemented!() }
+}
 '''
